@@ -834,6 +834,10 @@ type BipartitionStats struct {
 //
 // It First Initializes bitsets of the reference tree
 func Compare(refTree *Tree, compTrees <-chan Trees, tips, comparetreeidentical bool, cpus int) (<-chan BipartitionStats, error) {
+	// At least one thread
+	if cpus < 1 {
+		cpus = 1
+	}
 	var edges []*Edge
 	var err error
 
@@ -953,6 +957,10 @@ func lengthOrZero(e *Edge) float64 {
 }
 
 func CompareWeighted(refTree *Tree, compTrees <-chan Trees, tips, comparetreeidentical bool, cpus int) (<-chan WeightedBipartitionStats, error) {
+	// At least one thread
+	if cpus < 1 {
+		cpus = 1
+	}
 	var refEdges []*Edge
 
 	var err error
